@@ -66,6 +66,25 @@ def acls(tier):
     return out
 
 
+def merge_pairs():
+    """ordered pairs of ACLs (two generators) whose merge stays inside the unambiguous domain, so the merged filter
+    must equal the reference of the merged structure; they exercise how identical rows of several generators unite"""
+    P = []
+
+    def add(name, fa, fb):
+        P.append((name, fa, fb))
+    # the same block row: first without children, then with (and the other way round); a second childless block next to it
+    add("childless-then-children", lambda: [ARule("a *"), ARule("b *")], lambda: [ARule("a *", [ARule("c *")])])
+    add("children-then-childless", lambda: [ARule("a *", [ARule("c *")])], lambda: [ARule("a *"), ARule("b *")])
+    add("childless-twice-then-children", lambda: [ARule("a *"), ARule("b *"), ARule("interface *")],
+        lambda: [ARule("interface *", [ARule("d")]), ARule("a *", [ARule("c *")])])
+    add("same-block-different-children", lambda: [ARule("a *", [ARule("c *")])], lambda: [ARule("a *", [ARule("d")]), ARule("b ~")])
+    add("nested-same-rows", lambda: [ARule("a *", [ARule("c *"), ARule("d")])], lambda: [ARule("a *", [ARule("c *", [ARule("d *")])])])
+    add("cant-delete-mix", lambda: [ARule("a *", [ARule("c *")], cant_delete=True)], lambda: [ARule("a *", [ARule("d")], cant_delete=False)])
+    add("global-and-local-elsewhere", lambda: [ARule("d", glob=True), ARule("a *")], lambda: [ARule("a *", [ARule("c *")]), ARule("b *")])
+    return P
+
+
 def row_alphabet(rules, negated=False, prefix="undo"):
     """rows instantiating the rules (any depth), foreign rows, and optionally negated forms"""
     rows = []
